@@ -28,7 +28,7 @@ def setup():
     from concurrent.futures import ThreadPoolExecutor
     jobs = []
     for prof, ns in (("core", (1, 2, 3, 4)), ("cond", (1, 2, 3, 4)), ("iter", (1, 2, 3)), ("wild", (1, 2, 3)), ("plain", (1, 2, 3)),
-                     ("case", (1, 2, 3)), ("lb", (1, 2, 3, 4)), ("ctxfill", (0,)), ("condctx", (0,)), ("wildshapes", (0,))):
+                     ("case", (1, 2, 3)), ("lb", (1, 2, 3, 4)), ("ctxfill", (0,)), ("condctx", (0,)), ("wildshapes", (0,)), ("plainctx", (0,))):
         for n in ns:
             jobs.append((pats, (prof, n)))
     for sig, n in (("sig6", 2), ("sig6", 3), ("wide", 2), ("wide", 3), ("case4", 3), ("ab", 3)):
@@ -79,14 +79,15 @@ def core_space(ctx):
         small += read_ndjson(pats("core", n))
     cf = read_ndjson(pats("ctxfill", 0))
     p4 = read_ndjson(pats("core", 4))
+    cc = read_ndjson(pats("condctx", 0))      # conditionals (groups in conditions and branches) belong to C01/C02 as much as to C15
     if ctx.quick:
-        spaces = [("pat123", renumber_ids(small), t3), ("ctxfill", cf, t3),
+        spaces = [("pat123", renumber_ids(small), t3), ("ctxfill", cf, t3), ("condctx", cc, t3),
                   ("pat4sample", renumber_ids(sample(ctx, p4, 1500)), t3),
                   ("random", randgen.random_pats(ctx.rng, "core", 800, depth=3), t3)]
         ctx.exhaustive = False
     else:
         t4 = texts("sig6", 4)
-        spaces = [("pat123", renumber_ids(small), t3), ("ctxfill", cf, t3), ("pat4", p4, t3),
+        spaces = [("pat123", renumber_ids(small), t3), ("ctxfill", cf, t3), ("condctx", cc, t3), ("pat4", p4, t3),
                   ("random", randgen.random_pats(ctx.rng, "core", 20000, depth=4, max_nodes=16), t3),
                   ("pat123_L4", renumber_ids(small), t4), ("ctxfill_L4", cf, t4)]
         ctx.exhaustive = False
